@@ -17,7 +17,7 @@ func GenC12(r *RNG) *CliPlan {
 		nops += len(l.Ops)
 	}
 	after := func() int { return Pick(r, -1, r.Intn(nops+1)) }
-	kind := Pick(r, "cut-eof", "cut-eof", "cut-rst", "werr", "mutate", "mutate", "server-rst", "goaway", "silence", "early-response", "close-race", "cancel", "flip", "unknown-frames", "no-ping-ack")
+	kind := Pick(r, "cut-eof", "cut-eof", "cut-rst", "werr", "mutate", "mutate", "server-rst", "goaway", "silence", "early-response", "close-race", "cancel", "flip", "unknown-frames", "no-ping-ack", "bad-preface")
 	p.Trail = kind
 	switch kind {
 	case "cut-eof", "cut-rst":
@@ -106,6 +106,10 @@ func GenC12(r *RNG) *CliPlan {
 			u.Ops = append(u.Ops, Op{Kind: "raw", RawType: uint8(Pick(r, 10, 11, 12, 64, 127, 128, 200, 255)), RawFlags: uint8(r.Intn(256)), RawLen: Pick(r, 0, 1, 8, 100), StreamRef: Pick(r, -1, 1, 3), Pad: -1, TableSize: -1})
 		}
 		p.Lanes = append(p.Lanes, u)
+	case "bad-preface":
+		// the server's side of the connection does not start with SETTINGS (RFC 7540 3.5): the handshake must come back,
+		// one way or the other
+		p.BadPreface = Pick(r, "ping-first", "goaway-first", "garbage", "data-first")
 	case "no-ping-ack":
 		p.NoPingAck = true
 		p.DisablePingChecking = false
@@ -139,6 +143,9 @@ func c12Late(w *CliWorld) *Violation {
 	hostile := kind == "mutate" || kind == "flip" // the server's output is not what the plan's response model says
 	for _, rc := range w.sim.R.Recovers {
 		return mk("recovered-panic", "recovered-panic/"+siteFunc(rc.Site)+"/"+kind, fmt.Sprintf("panic recovered at %s: %.1200s", rc.Site, rc.Value))
+	}
+	if !w.hsSeen {
+		return mk("handshake-stuck", "handshake-stuck/"+blockedSig(w.aliveSys())+"/"+kind, fmt.Sprintf("Handshake has not returned although the connection was closed, the server left and a minute passed; goroutines: %s", strings.Join(w.aliveList(), "; ")))
 	}
 	for k, c := range w.callers {
 		if !c.started {
